@@ -763,8 +763,10 @@ def iterlookupjoin(left, right, lkey, rkey, missing=None, lprefix=None,
     rkind = asindices(rhdr, rkey)
 
     # construct functions to extract key values from both tables
-    lgetk = operator.itemgetter(*lkind)
-    rgetk = operator.itemgetter(*rkind)
+    # (keys are wrapped so that None and mixed types can be compared, as in
+    # the sort applied to both tables)
+    lgetk = comparable_itemgetter(*lkind)
+    rgetk = comparable_itemgetter(*rkind)
 
     # determine indices of non-key fields in the right table
     # (in the output, we only include key fields from the left table - we
@@ -807,10 +809,13 @@ def iterlookupjoin(left, right, lkey, rkey, missing=None, lprefix=None,
 
     # loop until *either* of the iterators is exhausted
     lkval, rkval = None, None  # initialise here to handle empty tables
+    # True while a left group has been fetched but not yet dealt with
+    lhanging = False
     try:
 
         # pick off initial row groups
         lkval, lrowgrp = next(lgit)
+        lhanging = True
         rkval, rrowgrp = next(rgit)
 
         while True:
@@ -818,7 +823,9 @@ def iterlookupjoin(left, right, lkey, rkey, missing=None, lprefix=None,
                 for row in joinrows(lrowgrp, None):
                     yield tuple(row)
                 # advance left
+                lhanging = False
                 lkval, lrowgrp = next(lgit)
+                lhanging = True
             elif lkval > rkval:
                 # advance right
                 rkval, rrowgrp = next(rgit)
@@ -826,14 +833,16 @@ def iterlookupjoin(left, right, lkey, rkey, missing=None, lprefix=None,
                 for row in joinrows(lrowgrp, rrowgrp):
                     yield tuple(row)
                 # advance both
+                lhanging = False
                 lkval, lrowgrp = next(lgit)
+                lhanging = True
                 rkval, rrowgrp = next(rgit)
 
     except StopIteration:
         pass
 
     # make sure any left rows remaining are yielded
-    if lkval > rkval:
+    if lhanging:
         # yield anything that got left hanging
         for row in joinrows(lrowgrp, None):
             yield tuple(row)
